@@ -143,7 +143,8 @@ def vcf(rng, uid=None, fn=None):
     if rng.random() < 0.25:
         L.append("NOTE:" + rng.choice(["first paragraph\u2028second paragraph", "nel\u0085inside", "emoji \U0001F600 \U0001F468", "para\u2029sep", "cjk-ext \U00020000"]))
     L.append("END:VCARD")
-    return ("\r\n".join(_fold(x) for x in L) + "\r\n").encode("utf-8")
+    nl = "\n" if rng.random() < 0.2 else "\r\n"
+    return (nl.join(_fold(x).replace("\r\n", nl) for x in L) + nl).encode("utf-8")
 
 
 def opaque(rng):
